@@ -19,6 +19,8 @@ Named(key, v) == [named |-> TRUE, key |-> <<Txt(key)>>, val |-> v]
 If(c, y, n) == [k |-> "if", c |-> c, y |-> y, n |-> n]
 IfEq(a, b, y, n) == [k |-> "eq", a |-> a, b |-> b, y |-> y, n |-> n]
 Switch(v, cases, hasD, d) == [k |-> "sw", v |-> v, cases |-> cases, hasDflt |-> hasD, dflt |-> d]
+Link(args) == [k |-> "l", args |-> args]
+Ext(c) == [k |-> "x", c |-> c]
 Seg(w, c) == [w |-> w, c |-> c]
 Plain(c) == <<Seg("plain", c)>>
 
@@ -46,12 +48,12 @@ T1BodiesQ == { Plain(BodyShow), Plain(BodyStar), Plain(BodyDefPar),
 
 \* T2: templates calling T1, forwarding / padding their own parameters
 T2Bodies ==
-  { Plain(<<Txt(<<"<">>), Call("T1", <<Pos(<<Par(<<"1">>)>>), Named(<<"x">>, <<Par(<<"x">>)>>)>>), Txt(<<">">>)>>),
+  { Plain(<<Link(<<<<Txt(<<"a">>)>>, <<Par(<<"1">>), Call("T1", <<Pos(<<Par(<<"x">>)>>)>>)>>>>), Ext(<<Par(<<"1">>)>>)>>), Plain(<<Txt(<<"<">>), Call("T1", <<Pos(<<Par(<<"1">>)>>), Named(<<"x">>, <<Par(<<"x">>)>>)>>), Txt(<<">">>)>>),
     Plain(<<Call("T1", <<Named(<<"x">>, <<Txt(<<"SP">>), Par(<<"1">>), Txt(<<"SP">>)>>)>>)>>),
     Plain(<<Call("T1", <<Pos(<<Txt(<<"SP">>), ParD(<<"q">>, <<Txt(<<"dq">>)>>), Txt(<<"NL">>)>>)>>)>>),
     Plain(<<If(<<Par(<<"1">>)>>, <<Txt(<<"SP", "y", "SP">>)>>, <<Call("T1", <<Pos(<<Txt(<<"n">>)>>)>>)>>)>>),
     Plain(<<Call("T1", <<Named(<<"1">>, <<Par(<<"x">>)>>), Pos(<<Par(<<"1">>)>>)>>)>>) }
-T2BodiesQ == { Plain(<<Txt(<<"<">>), Call("T1", <<Pos(<<Par(<<"1">>)>>), Named(<<"x">>, <<Par(<<"x">>)>>)>>), Txt(<<">">>)>>),
+T2BodiesQ == { Plain(<<Link(<<<<Txt(<<"a">>)>>, <<Par(<<"1">>), Call("T1", <<Pos(<<Par(<<"x">>)>>)>>)>>>>), Ext(<<Par(<<"1">>)>>)>>), Plain(<<Txt(<<"<">>), Call("T1", <<Pos(<<Par(<<"1">>)>>), Named(<<"x">>, <<Par(<<"x">>)>>)>>), Txt(<<">">>)>>),
                Plain(<<Call("T1", <<Named(<<"x">>, <<Txt(<<"SP">>), Par(<<"1">>), Txt(<<"SP">>)>>)>>)>>),
                Plain(<<If(<<Par(<<"1">>)>>, <<Txt(<<"SP", "y", "SP">>)>>, <<Call("T1", <<Pos(<<Txt(<<"n">>)>>)>>)>>)>>) }
 
@@ -67,13 +69,16 @@ Values == { <<Txt(t)>> : t \in Texts }
           \cup { <<Call("SP", <<>>)>>, <<Txt(<<"SP">>), Call("SP", <<>>)>>,
                  <<Call("T1", <<Pos(<<Txt(<<"i">>)>>)>>)>>, <<Call("NOPE", <<>>)>>,
                  <<Par(<<"1">>)>>, <<ParD(<<"z">>, <<Txt(<<"dz">>)>>)>>,
-                 <<ParD(<<"z">>, <<Call("T1", <<Pos(<<Txt(<<"q">>)>>)>>)>>)>> }
+                 <<ParD(<<"z">>, <<Call("T1", <<Pos(<<Txt(<<"q">>)>>)>>)>>)>>,
+                 <<Link(<<<<Txt(<<"a">>)>>, <<Call("SP", <<>>)>>>>)>>, <<Ext(<<Call("T1", <<Pos(<<Txt(<<"u">>)>>)>>)>>)>> }
 ArgKinds == { Pos(v) : v \in Values }
             \cup { Named(key, v) : key \in { <<"x">>, <<"SP", "x", "NL">>, <<"1">>, <<"2">>, <<"y">>, <<"1", "SP">>, <<"NL", "2", "SP">> }, v \in Values }
 ArgSeqs == { <<>> } \cup { <<a>> : a \in ArgKinds } \cup { <<a, b>> : a \in ArgKinds, b \in ArgKinds }
+ValuesSmall == { <<Txt(<<"a">>)>>, <<Txt(<<"SP", "a", "SP">>)>>, <<Call("SP", <<>>)>>, <<Par(<<"1">>)>>,
+                 <<Link(<<<<Txt(<<"a">>)>>, <<Call("SP", <<>>)>>>>)>> }
 ArgSeqsQ == { <<>> } \cup { <<a>> : a \in ArgKinds }
-            \cup { <<a, b>> : a \in { Pos(v) : v \in Values }, b \in ArgKinds }
-            \cup { <<a, b>> : a \in ArgKinds, b \in { Named(<<"x">>, v) : v \in Values } }
+            \cup { <<a, b>> : a \in { Pos(v) : v \in Values }, b \in { Pos(v) : v \in ValuesSmall } \cup { Named(k, v) : k \in {<<"x">>, <<"1", "SP">>, <<"2">>}, v \in ValuesSmall } }
+            \cup { <<a, b>> : a \in { Named(k, v) : k \in {<<"SP", "x", "NL">>, <<"1">>}, v \in ValuesSmall }, b \in { Named(<<"x">>, v) : v \in Values } \cup { Pos(v) : v \in ValuesSmall } }
 
 CallPages == { <<Call(n, as)>> : n \in {"T1", "T2"}, as \in (IF Universe = "Q" THEN ArgSeqsQ ELSE ArgSeqs) }
              \cup { <<Txt(<<"p">>), Call("NOPE", <<Pos(<<Txt(<<"a">>)>>)>>), Txt(<<"q">>)>> }
